@@ -118,12 +118,38 @@ static void an_case(int bt, int nb) {
     memcpy(vf_station[ST_M1], keep1, 6); memcpy(vf_station[ST_M2], keep2, 6);
 }
 static void an_name(int ev, char *b, size_t cap) { snprintf(b, cap, "arg(%d)", ev); }
-static void an_apply(int ev) { an_stage[an_n++] = ev; if (an_n == 2) { an_n = 0; an_case(an_stage[0], an_stage[1]); } }
+static void ls_case(int kind, int reps);
+static void an_apply(int ev) { an_stage[an_n++] = ev; if (an_n == 2) { an_n = 0; if (an_stage[0] >= 1000) ls_case(an_stage[0] - 1000, an_stage[1]); else an_case(an_stage[0], an_stage[1]); } }
 static void an_root(void) { an_n = 0; M.arb.v = ARB_NONE; }
 static e1_cfg ancfg = { .nev = 1 << 16, .ev_name = an_name, .apply = an_apply, .root_setup = an_root };
 static void run_neighbours(void) {
     static int p[2];
     for (int bt = 0; bt < 6; bt++) for (int nb = 0; nb < 51; nb++) { p[0] = bt; p[1] = nb; e1_manual_path(&ancfg, p, 2); an_case(bt, nb); vf_outcome(vf_trace_hash() ^ (uint64_t)nb); }
+}
+
+/* ------------------------------------------------------------- long sessions (part of mode "addr")
+ * One mapper, one kind of request repeated up to 65537 times (every counter a responder might keep per request wraps on
+ * the way); after 254..257, 510..513 and 65534..65537 repetitions the arbiter is probed on a copy of the state: a Discover
+ * of another station is refused, the mapper's own Discover is answered.  pseudo path: [1000 + request kind, repetitions] */
+static void ls_case(int kind, int reps) {
+    vf_world_reset(); root_setup();
+    pev d = ev_discover(0, ST_M1, ST_M1, 0x1111, 1); vf_trace_clear(); { int ex = arbiter_step(&d); drv_linux(&d, 0); oracle(&d, ex); }
+    for (int i = 1; i <= reps; i++) {
+        uint16_t seq = (uint16_t)((i & 0xFFFF) ? (i & 0xFFFF) : 1);
+        pev e = kind == 0 ? ev_query(0, ST_M1, ST_M1, seq) : kind == 1 ? ev_qlt(0, ST_M1, ST_M1, seq, 0x0E, 0) : kind == 2 ? ev_emit1(0, ST_M1, ST_M1, seq, 1, 0, ST_S0, ST_PEER)
+              : kind == 3 ? ev_probe(0x04, 0, ST_S0, ST_S0, ST_OWN, ST_OWN) : kind == 4 ? ev_hello(0, ST_PEER, 0x3412) : ev_discover(0, ST_M1, ST_M1, 0x1111, seq);
+        vf_trace_clear(); arbiter_step(&e); drv_linux(&e, 0);
+    }
+    pev s1 = ev_discover(0, ST_M2, ST_M2, 0x2222, 7), s2 = ev_discover(0, ST_M1, ST_M1, 0x1111, 9);
+    vf_trace_clear(); { int ex = arbiter_step(&s1); drv_linux(&s1, 0); oracle(&s1, ex); }
+    vf_trace_clear(); { int ex = arbiter_step(&s2); drv_linux(&s2, 0); oracle(&s2, ex); }
+    an_cases++;
+    if (A.verbose) printf("    mapper M1, request kind %d repeated %d times, then Discover(M2) and Discover(M1)\n", kind, reps);
+}
+static void run_long_sessions(void) {
+    static const int CP[12] = {254, 255, 256, 257, 510, 511, 512, 513, 65534, 65535, 65536, 65537};
+    static int p[2];
+    for (int kind = 0; kind < 6; kind++) for (int c = 0; c < (vf_thorough() ? 12 : 8); c++) { p[0] = 1000 + kind; p[1] = CP[c]; e1_manual_path(&ancfg, p, 2); ls_case(kind, CP[c]); vf_outcome(vf_trace_hash() ^ (uint64_t)(kind * 131 + c)); }
 }
 
 static void run_sweep(void) {
@@ -163,7 +189,7 @@ int main(int argc, char **argv) {
     int sweep = strcmp(A.mode, "sweep") == 0, addr = strcmp(A.mode, "addr") == 0;
     if (A.replay) { A.verbose = 1; return e1_replay_file(addr ? &ancfg : sweep ? &sweep_cfg : &cfg, A.replay); }
     double t0 = vf_now_s();
-    if (addr) { run_neighbours(); R.evaluations = an_cases * 5; R.exhaustive = 1; vf_sample("3 base mapper addresses x {48 one-bit neighbours, 3 twins} x both services: Discover(X) accepted, Discover(Y) refused, Discover(X) accepted, Reset, Discover(Y) accepted"); }
+    if (addr) { run_neighbours(); run_long_sessions(); vf_sample("long sessions: 6 request kinds repeated 254..257 / 510..513%s times by the mapper, then Discover(M2) refused and Discover(M1) answered", vf_thorough() ? " / 65534..65537" : ""); R.evaluations = an_cases * 5; R.exhaustive = 1; vf_sample("3 base mapper addresses x {48 one-bit neighbours, 3 twins} x both services: Discover(X) accepted, Discover(Y) refused, Discover(X) accepted, Reset, Discover(Y) accepted"); }
     else if (sweep) run_sweep();
     else {
         e1_stats st; e1_run(&cfg, &st);
